@@ -1,11 +1,12 @@
 #!/bin/bash
 # usage: tools/rerun_seeded.sh [tier] [ids...] - re-applies every seeded change to a scratch worktree of the current /repo HEAD and
-# runs the check of the property it breaks; prints one line per change (DETECTED / MISSED / PATCH-STALE).
+# runs the check of the property it breaks; prints one line per change (DETECTED / MISSED / PATCH-STALE / RETIRED).
 cd "$(dirname "$0")/.."
 TIER=${1:-quick}; shift
 IDS=${@:-$(ls seeded)}
 for id in $IDS; do
   prop=$(python3 -c "import json;print(json.load(open('seeded/$id/meta.json'))['breaks_property'])")
+  if grep -q '"status": "retired' seeded/$id/meta.json; then echo "$id RETIRED (no longer violates $prop on the current tree, see meta.json)"; continue; fi
   out=$(SKIP_TESTS=1 tools/try_seeded.sh seeded/$id/patch.diff - "$prop" $TIER 2>&1)
   if echo "$out" | grep -q "patch does not apply"; then echo "$id PATCH-STALE"; continue; fi
   if echo "$out" | grep -q "== $prop: FAILED"; then echo "$id DETECTED $(echo "$out" | grep -m1 'key=' | cut -c1-140)"; else echo "$id MISSED $(echo "$out" | grep "== $prop" | cut -c1-200)"; fi
